@@ -19,7 +19,10 @@ def main():
         m = json.load(open(os.path.join(d, 'meta.json')))
         name = 'seeded:' + os.path.basename(d)
         r = km.get(name, {})
-        caught = ', '.join(r.get('caught_by') or m.get('caught_by', [])) or 'MISSED'
+        if m.get('neutralised_by'):
+            continue
+        caught = ', '.join(r.get('caught_by') or m.get('caught_by', [])) or \
+            ('not detectable (see meta.json)' if m.get('not_detectable') else 'MISSED')
         rows.append((m['property'], os.path.basename(d), 'sub-agent', m.get('change', ''), m.get('needs_to_manifest', ''), caught))
     for f in sorted(glob.glob(os.path.join(VERIF, 'mutants', 'C*', '*.json'))):
         m = json.load(open(f))
@@ -33,7 +36,7 @@ def main():
     for r in rows:
         out.append('| %s | %s | %s | %s | %s | %s |' % tuple(str(x).replace('|', '\\|') for x in r))
     total = len(rows)
-    caught = sum(1 for r in rows if r[5] not in ('MISSED', 'not run'))
+    caught = sum(1 for r in rows if r[5] not in ('MISSED', 'not run') and not r[5].startswith('not detectable'))
     out.append('')
     out.append('%d of %d changes are caught by the quick tier of the check named in the last column.' % (caught, total))
     text = '\n'.join(out)
